@@ -195,8 +195,9 @@ def run(ctx):
         'n_rdm, n_pattern >= 2 wherever given (n/(n-1) is undefined otherwise)',
         'a single covariance with both n given is corrected with the smaller n (the rule of _correct_1d); a 3-stack '
         'with fewer than two n uses the uncorrected combination (docstring of _dual_bootstrap)',
-        'NaN marks invalidate a sample for all models at once (what every evaluator writes); NaN folds / entries never '
-        'leave a single model without a value in a valid sample',
+        'bootstrap-type results: NaN marks invalidate a sample for all models at once (what every evaluator writes); NaN '
+        'folds / entries never leave a single model without a value in a valid sample. fixed / crossvalidation results: '
+        'any NaN pattern, the mean is per model',
         'means are the iterated NaN-aware means over the trailing axes, then the mean over valid samples',
         'cv_method fixed / crossvalidation: one sample, 3-d array',
         't-statistic equality only where the exact variance is > 0; bootstrap pair tests of models with identical '
@@ -273,6 +274,17 @@ def run(ctx):
         for key, what, case in f:
             merge(found, {key: [1, what, case]})
     report(ctx, found)
+
+    # ---- one model NaN everywhere, every cv_method, every position (bootstrap-type: contract question, counted)
+    same, differs, viol = V.probe_model_nan(ctx.seed)
+    ctx.count(same + sum(differs.values()) + len(viol))
+    for key, what, case in viol:
+        ctx.violation(key, what, case)
+    for cls, n in sorted(differs.items()):
+        for _ in range(n):
+            ctx.unsupported_case(f'get_means/model-specific-nan/{cls}',
+                                 'bootstrap-type result with one all-NaN model: samples are filtered by model 0 (not demanded)')
+    ctx.extra['model_nan_probe'] = {'as_per_model_mean': same, 'differs_not_demanded': differs}
 
     # ---- implementation -> specification
     t0 = time.time()
